@@ -108,7 +108,8 @@ def generate(rng, index, tier):
     if rng.chance(0.3):
         for _ in range(rng.randint(1, 2)):
             faults.append({'k': 'drop', 'at': rng.randrange(max(1, total))})
-    return {'threads': threads, 'schedule': sched, 'faults': faults, 'tsmode': worlds.draw_tsmode(rng)}
+    return {'threads': threads, 'schedule': sched, 'faults': faults, 'tsmode': worlds.draw_tsmode(rng), 'earlier_other': rng.chance(0.15),
+            'tmap': rng.chance(0.4)}
 
 
 def _prot(bits):
@@ -135,7 +136,12 @@ def execute(scn):
     THD, HDR, DATA = ids['PERF_THD_Data'], ids['PERF_STK_UHdr'], ids['PERF_STK_UData']
     decoded_real = {ids[n] for n in REAL}
     events = worlds.kevents_of(stream)
-    parser = tool.tp_mod.TracesParser(table, {}, {})
+    if scn.get('earlier_other'):
+        common.pollute_other_objects(table, stream)
+        bump('fault:residue')
+        bump('earlier_other_objects')
+    tmap = {th['tid']: 5000 + i for i, th in enumerate(scn['threads'])} if scn.get('tmap') else {}
+    parser = tool.tp_mod.TracesParser(table, tmap, {})
     m = model.Windows()
     viols = []
     hist = []
